@@ -61,6 +61,60 @@ impl Prop for P {
             }
             stats.bump("mixed_add_insert_len_3");
         }
+        // several extend batches on ONE builder: a batch that stops at a rejected item leaves a builder that is used
+        // further - every way of cutting the exhaustive sequences of length <= 4 into consecutive batches
+        let blen = match tier { Tier::Quick => 3, Tier::Thorough => 4, Tier::Wide => 3 };
+        for l in 2..=blen {
+            for seq in all_sequences(&uni, l) {
+                for cut in 1..(1u32 << (l - 1)) {
+                    // bit i of `cut` set: a batch boundary after item i
+                    let mk = |set: bool| -> String {
+                        let mut parts: Vec<Vec<Op>> = vec![vec![]];
+                        for (i, k) in seq.iter().enumerate() {
+                            parts.last_mut().unwrap().push(if set { Op::Add(k.clone()) } else { Op::Insert(k.clone(), (i + 1) as u64) });
+                            if i + 1 < l && cut >> i & 1 == 1 {
+                                parts.push(vec![]);
+                            }
+                        }
+                        parts.iter().map(|b| fmt_ops(b)).collect::<Vec<_>>().join("|")
+                    };
+                    for fe in ["raw_iter", "raw_stream", "map_iter", "map_stream"] {
+                        if l < blen || rng.below(4) == 0 {
+                            cases.push(format!("build batches {} 0 {} {} {}", fe, drows(), dcols(), mk(false)));
+                        }
+                    }
+                    for fe in ["set_iter", "set_stream"] {
+                        if l < blen || rng.below(4) == 0 {
+                            cases.push(format!("build batches {} 0 {} {} {}", fe, drows(), dcols(), mk(true)));
+                        }
+                    }
+                }
+                stats.bump(&format!("batches_exhaustive_len_{}", l));
+            }
+        }
+        // random histories cut into batches
+        for _ in 0..(match tier { Tier::Quick => 200, Tier::Thorough => 3000, Tier::Wide => 800 }) {
+            let ks = random_keyset(rng, 30, 5);
+            let is_set = rng.chance(1, 2);
+            let mut parts: Vec<Vec<Op>> = vec![vec![]];
+            for (i, k) in ks.iter().enumerate() {
+                if rng.below(100) < 25 {
+                    let bad = match rng.below(3) {
+                        0 => ks[rng.below((i + 1) as u64) as usize].clone(),
+                        1 => if i > 0 { ks[i - 1].clone() } else { vec![] },
+                        _ => vec![],
+                    };
+                    parts.last_mut().unwrap().push(if is_set { Op::Add(bad) } else { Op::Insert(bad, rng.below(1000)) });
+                }
+                parts.last_mut().unwrap().push(if is_set { Op::Add(k.clone()) } else { Op::Insert(k.clone(), rng.below(1 << 40)) });
+                if rng.chance(1, 4) {
+                    parts.push(vec![]);
+                }
+            }
+            let fe = if is_set { *rng.pick(&["set_iter", "set_stream"]) } else { *rng.pick(&["raw_iter", "raw_stream", "map_iter", "map_stream"]) };
+            cases.push(format!("build batches {} 0 {} {} {}", fe, drows(), dcols(), parts.iter().map(|b| fmt_ops(b)).collect::<Vec<_>>().join("|")));
+            stats.bump("batches_random");
+        }
         // random long histories with an error rate
         let nrand = match tier { Tier::Quick => 400, Tier::Thorough => 6000, Tier::Wide => 1600 };
         for _ in 0..nrand {
